@@ -6,7 +6,7 @@ import textwrap
 
 from hypothesis import strategies as st
 
-from vf.gen.strlits import fam_reported_shapes, fam_string_literals
+from vf.gen.strlits import fam_deep_long_lines, fam_reported_shapes, fam_string_literals
 
 ITERS = ["range(5)", "[3, 1, 2]", "[]", "[0, 0, 4]", "(1, 2, 3)", "range(2, 7)", "[5]", "data", "sorted({4, 2})"]
 CONDS = ["x > 1", "x % 2 == 0", "x", "not x", "x in (1, 3)", "x != 2", "x >= 0 and x < 4", "True", "check(x)"]
@@ -620,7 +620,7 @@ FAMILIES = {
     "move_before_loop": fam_move_before_loop, "classes": fam_classes, "duplicates": fam_duplicates, "builtin_chains": fam_builtin_chains,
     "defaultdict": fam_defaultdict, "boolean": fam_boolean, "naming": fam_naming, "constants": fam_constants, "imports": fam_imports,
     "strings": fam_strings, "raise_from": fam_raise_from, "starred": fam_starred, "context_manager": fam_context_manager, "math": fam_math,
-    "layout": fam_layout, "misc_rewrites": fam_misc_rewrites, "loop_state": fam_loop_state, "string_literals": fam_string_literals, "loop_exit": fam_loop_exit, "boolean_calls": fam_boolean_calls, "reported_shapes": fam_reported_shapes,
+    "layout": fam_layout, "misc_rewrites": fam_misc_rewrites, "loop_state": fam_loop_state, "string_literals": fam_string_literals, "loop_exit": fam_loop_exit, "boolean_calls": fam_boolean_calls, "reported_shapes": fam_reported_shapes, "deep_long_lines": fam_deep_long_lines,
 }
 NUMPY_FAMILIES = {"numpy": fam_numpy}
 
